@@ -1415,7 +1415,16 @@ fn same_need_cfg(rng: &mut impl Rng, kind: Kind, k: usize, r: usize, sb: usize) 
     (ok && nsb >= 2 && nk <= 400 && nr <= 400).then_some((nk, nr, nsb))
 }
 
+/// Counts at which size arithmetic is most likely to overflow: the top powers of two and their neighbours.
+pub const OVERFLOW_PRONE: [usize; 8] = [1 << 63, (1 << 62) + 1, (1 << 63) - 1, usize::MAX, (1 << 63) + 1, 1 << 62, (1 << 32) + 1, usize::MAX / 3];
+
 fn bad_cfg(rng: &mut impl Rng, k: usize, r: usize, sb: usize) -> (usize, usize, usize) {
+    // both counts huge at once (sums and roundings of two huge values)
+    if rng.gen_range(0..6) == 0 {
+        let a = OVERFLOW_PRONE[rng.gen_range(0..OVERFLOW_PRONE.len())];
+        let b = OVERFLOW_PRONE[rng.gen_range(0..5)];
+        return if rng.gen_bool(0.5) { (a, b, sb) } else { (b, a, sb) };
+    }
     match rng.gen_range(0..12) {
         0 => (0, r, sb),
         1 => (k, 0, sb),
